@@ -23,6 +23,33 @@ TRUSTED = ["scipy.optimize.isotonic_regression (mean functional) is outside the 
            "bootstrap resampling (numpy global RNG) is not modelled: lower<=upper and fixed-seed reproducibility are observed"]
 ASSUMPTIONS = ["forecasts / observations / weights are small dyadic rationals or NaN (float + - * and comparisons exact); "
                "means compared to 1e-9", "infinite inputs are not generated", "float rounding is not modelled"]
+MANIFEST = dict(
+    level="proof",
+    text="Kernel-checked Lean theorems about a hand model of isoreg_impl.py (joint NaN removal, stable sort by forecast ascending / "
+         "observation descending, the code's run-pooling PAV with a pluggable block solver, reduction to distinct forecasts): for ANY "
+         "solver the fit is non-decreasing, the tidied pairs are partitioned into blocks with strictly increasing values, each block "
+         "value is the solver applied to exactly that block (solver the identity on one observation), block boundaries occur only at "
+         "strict increases of the tidied observations so tied forecasts always share one value, fcst_counts sums to the number of "
+         "valid pairs; for the mean functional (positive weights): min obs <= fit <= max obs, sum w*fit = sum w*obs, the KKT prefix "
+         "invariant, OPTIMALITY with a strong-convexity gap (sum w(y-fit)^2 + sum w(fit-z)^2 <= sum w(y-z)^2 for every competitor "
+         "non-decreasing in the forecast, in particular every monotone function of the forecast over the pairs in any order) and "
+         "UNIQUENESS; the model of _nanquantile is monotone in the level, hence lower <= upper on every column of any bootstrap matrix. "
+         "The model is tied to the code by differential correspondence (numpy/xarray inputs of 1-3 dims, permuted dims and "
+         "shuffled coordinates, heavy ties, NaN, weights, mean / quantile / 10 custom solvers, regression_func, confidence-band "
+         "arithmetic on the reported bootstrap matrix); the property oracle compares the real isotonic_fit with the exact max-min "
+         "formula over the distinct forecasts (Lean Spec, rational arithmetic, independent of PAV and of the sort) exhaustively on all "
+         "short sequences over a 3x3 pool and on random cases, and checks order / shape / container / NaN invariance, bounds, "
+         "weighted-mean preservation, counts, block = solver(block), lower <= upper and fixed-seed reproducibility.",
+    note="Trusted: Lean kernel; propext/Classical.choice/Quot.sound; the hand model (no translator for this property) and the harness; "
+         "scipy.optimize.isotonic_regression (used by the code for the mean functional) is OUTSIDE the proof — the PAV model with the "
+         "weighted-mean solver is tied to it only by the correspondence check. Not proved: 'fit = max-min formula' (the Spec is used as "
+         "the test oracle only) and permutation invariance as a Lean theorem (both observed by the oracle; uniqueness is proved). "
+         "Bootstrap resampling uses numpy's global RNG and is not modelled: the band arithmetic is modelled on the matrix the code reports "
+         "(lower <= upper proved there), reproducibility for a fixed seed is observed, not proved. "
+         "Custom solvers are assumed to be the identity on a single observation (notes/C15.md, interpretation). Infinite inputs, dtype "
+         "checks and float rounding are not modelled; quantile levels sent to the model are dyadic.",
+    technique="Lean 4 theorems over a hand-written executable model + differential correspondence + exact max-min oracle",
+    design="6/C15")
 RULE = ("pairs (fcst, obs[, weight]) drawn from small dyadic pools with heavy ties and NaN in every slot, arranged as numpy / xarray "
         "arrays of 1-3 dims (xarray operands with permuted dims / shuffled coordinates), functional mean / quantile / 11 custom solvers; "
         "exhaustive: every sequence up to a length over a 3-value pool; distinct = distinct canonical case; "
